@@ -351,3 +351,67 @@ def time_string(eng, st, fr, args, ins):
 @intr("(time.Duration).Seconds", "(time.Duration).Minutes", "(time.Duration).Hours")
 def dur_seconds(eng, st, fr, args, ins):
     return 0.0
+
+
+# ------------------------------------------------------------------------------------ ABI calldata as abstract constructor (C20)
+class CalldataCarrier:
+    __slots__ = ("kind", "fields")
+
+    def __init__(self, kind, fields):
+        self.kind = kind
+        self.fields = fields  # dict name -> (tid, value)
+
+    def __eq__(self, o):
+        return self is o
+
+    def __hash__(self):
+        return id(self)
+
+
+SELECTORS = {0: "ccaa2d11", 1: "f5efcd79", 2: "2cffd02e", 3: "2d2c9d94"}
+
+
+@intr("github.com/agglayer/aggkit/bridgesync.zzPackClaim")
+def zz_pack_claim(eng, st, fr, args, ins):
+    kind, ccp = args
+    tid = "github.com/agglayer/aggkit/bridgesync.zzClaimCall"
+    u = eng.ir.under(tid)
+    v = eng.load(st, ccp)
+    fields = {f["name"]: (f["t"], v[i]) for i, f in enumerate(u["fields"])}
+    sel = tuple(bytes.fromhex(SELECTORS[kind]))
+    return eng.new_slice(st, "uint8", sel + (CalldataCarrier(kind, fields),))
+
+
+@intr("(*github.com/ethereum/go-ethereum/accounts/abi/bind.MetaData).GetAbi")
+def metadata_getabi(eng, st, fr, args, ins):
+    return (eng.alloc(st, "github.com/ethereum/go-ethereum/accounts/abi.ABI"), None)
+
+
+@intr("(*github.com/ethereum/go-ethereum/accounts/abi.ABI).MethodById")
+def abi_methodbyid(eng, st, fr, args, ins):
+    return (eng.alloc(st, "github.com/ethereum/go-ethereum/accounts/abi.Method"), None)
+
+
+@intr("(github.com/ethereum/go-ethereum/accounts/abi.Arguments).Unpack")
+def abi_args_unpack(eng, st, fr, args, ins):
+    data = eng.slice_elems(st, args[1])
+    if not data or not isinstance(data[0], CalldataCarrier):
+        raise Unsupported("Arguments.Unpack on bytes that were not produced by zzPackClaim")
+    c = data[0]
+    f = c.fields
+    if c.kind < 2:
+        order = ["proofLER", "proofRER", "globalIndex", "mer", "rer", "origNet", "origAddr", "destNet", "destAddr", "amount", "metadata"]
+        vals = [Iface(eng.ir.canon(f[n][0]), f[n][1]) for n in order]
+    else:
+        gi = intrinsics.big_get(eng, st, f["globalIndex"][1])
+        idx = gi if not is_sym(gi) else z3.simplify(z3.Extract(31, 0, gi))
+        if not is_sym(idx):
+            idx &= 0xffffffff
+        vals = [Iface(eng.ir.canon(f["proofLER"][0]), f["proofLER"][1]), Iface("uint32", idx)]
+        for n in ("mer", "rer", "origNet", "origAddr", "destNet", "destAddr", "amount", "metadata"):
+            vals.append(Iface(eng.ir.canon(f[n][0]), f[n][1]))
+    tid = "[]interface{}"
+    if "interface{}" not in eng.ir.types:
+        eng.ir.types["interface{}"] = {"k": "iface", "methods": []}
+    et = "any" if "any" in eng.ir.types else "interface{}"
+    return (eng.new_slice(st, et, tuple(vals)), None)
